@@ -4,7 +4,7 @@ from ..implenv import np, pyPRISM
 from ..driver import f2h, fl, h2f
 
 RULE = ("every closure class and alias (8 names) x hard-core flag x sigma {on a grid point, between grid points, below/above the grid} x the real "
-        "Domain.r grid (passed bit-exactly) x gamma families {normal, +-50 tails, zeros, tiny} x potential families {random finite, hard core 1e6, "
+        "Domain.r grid (passed bit-exactly; ascending, or as reversed / strided views, or shuffled) x gamma families {normal, +-50 tails, zeros, tiny} x potential families {random finite, hard core 1e6, "
         "LJ-like, zero, tiny}; the returned array is compared with the Lean model (rtol 1e-12 on the scale of the data; the comparison r > sigma is bit-exact), "
         "the published relation is evaluated independently at every point, and purity probes run (inputs bit-identical after the call, second call identical, "
         "element-wise: index i unchanged when all other indices are replaced; default construction of classes and aliases; other closure objects with other sigmas configured in between); histories on ONE closure object whose potential/sigma are re-assigned or edited in place between calls. Non-trivial = at least one point in each branch or |gamma| > 5; "
@@ -36,6 +36,13 @@ def suite_eval(ctx, case):
     if case.get('uint'): u = np.rint(u).astype(int)          # an integer-TYPED potential array, e.g. a square well np.where(r < 1.5, -2, 0)
     if case.get('gint'): g = np.rint(g).astype(int)          # an integer-TYPED gamma (finding F19)
     sigma = case['sigma']
+    if case.get('order') == 'reversed':
+        # the same points as negatively strided views (r[::-1]): the relation is element-wise, no ordering of the grid is assumed
+        r = r[::-1]; g = g[::-1]; u = u[::-1]
+    elif case.get('order') == 'shuffled':
+        pm = np.random.RandomState(case.get('probe', 0)).permutation(len(r)); r = r[pm]; g = g[pm]; u = u[pm]
+    elif case.get('order') == 'strided':
+        r = np.repeat(r, 2)[::2]; g = np.repeat(g, 2)[::2]; u = np.repeat(u, 2)[::2]
     c = getattr(CL, name)(hc) if case.get('positional') else getattr(CL, name)(apply_hard_core=hc)      # the flag is the first positional argument
     if case.get('default') and not hc: c = getattr(CL, name)()          # the documented default: no hard-core rule, for the class and for its alias alike
     c.sigma = sigma; c.potential = u
@@ -117,6 +124,13 @@ def suite_history(ctx, case):
         elif op == 'set_inplace': c.potential[int(val[0]) % len(r):] = val[1]
         elif op == 'assign': c.potential = np.array(val, dtype=float)
         elif op == 'sigma': c.sigma = val
+        elif op == 'fpe':
+            # a diverged trial gamma under np.errstate(all='raise'): the caller catches the FloatingPointError and goes on with the same object
+            try:
+                with np.errstate(all='raise'):
+                    c.calculate(r, np.full(len(r), float(val)))
+            except FloatingPointError:
+                pass
         g = np.array(case['gammas'][step], dtype=float)
         if case.get('feedback') and step > 0 and kept:
             g = kept[-1][0]                      # the array returned by the previous call is handed back as gamma (an iteration)
@@ -167,19 +181,20 @@ def gen_case(rng, maxL):
     elif uk == 'zero': u = [0.0 for _ in r]
     else: u = [rng.gauss(0, 1e-3) for _ in r]
     return {'cls': rng.choice(list(NAMES)), 'hc': rng.random() < 0.5, 'sigma': sigma, 'r': r, 'gamma': g, 'u': u,
-            'probe': rng.randrange(1000), 'fam': [sk, gk, uk], 'default': rng.random() < 0.3, 'crowd': rng.random() < 0.5, 'uint': uk == 'random' and rng.random() < 0.3, 'positional': rng.random() < 0.3, 'gint': gk in ('normal', 'tails') and rng.random() < 0.15}
+            'probe': rng.randrange(1000), 'fam': [sk, gk, uk], 'default': rng.random() < 0.3, 'crowd': rng.random() < 0.5, 'order': rng.choice(['asc', 'asc', 'reversed', 'shuffled', 'strided']), 'uint': uk == 'random' and rng.random() < 0.3, 'positional': rng.random() < 0.3, 'gint': gk in ('normal', 'tails') and rng.random() < 0.15}
 
 def gen_history(rng):
     base = gen_case(rng, 24)
     L = len(base['r'])
     steps = [['none', 0]]
     for _ in range(rng.randint(2, 5)):
-        k = rng.choice(['scale_inplace', 'scale_inplace', 'set_inplace', 'assign', 'sigma', 'none', 'flag', 'flag', 'assign_int'])
+        k = rng.choice(['scale_inplace', 'scale_inplace', 'set_inplace', 'assign', 'sigma', 'none', 'flag', 'flag', 'assign_int', 'fpe'])
         if k == 'scale_inplace': v = rng.choice([0.5, 2.0, 0.25, 1.7])
         elif k == 'set_inplace': v = [rng.randrange(L), rng.choice([0.0, 0.3, -0.2])]
         elif k == 'assign': v = [rng.gauss(0, 1) for _ in range(L)]
         elif k == 'assign_int': v = [rng.choice([-2, -1, 0, 0, 1, 3]) for _ in range(L)]
         elif k == 'flag': v = rng.random() < 0.5
+        elif k == 'fpe': v = rng.choice([1e308, -1e308, 800.0, -1e200])
         elif k == 'sigma': v = base['r'][rng.randrange(L)] * rng.choice([1.0, 1.0, 1.3])
         else: v = 0
         steps.append([k, v])
